@@ -171,7 +171,7 @@ package desync
 //@ func (s *ChunkStorage) StoreChunk
 //@   prop C06
 //@   requires hasPayload(chunk)
-//@   modifies $first, s.ws.$stored, heap(ChunkStorage.processed), heap(ChunkStorage.Mutex), maps(map[ChunkID]struct{}), chunk.id, chunk.idCalculated, chunk.data
+//@   modifies $first, s.ws.$stored, s.ws.$has, s.ws.$lastErr, s.ws.$lastHas, heap(ChunkStorage.processed), heap(ChunkStorage.Mutex), maps(map[ChunkID]struct{}), chunk.id, chunk.idCalculated, chunk.data
 //@   ghost@after:markProcessed $first = !$r0
 //@   ensures err == nil && $first ==> s.ws.$stored[chunk.id]
 //@   ensures chunk.idCalculated && (old(chunk.idCalculated) ==> chunk.id == old(chunk.id)) && (!old(chunk.idCalculated) ==> chunk.id == H(bytes(old(chunk.data))))
